@@ -244,6 +244,12 @@ pub enum Op {
     BulkPut { kvs: Vec<(u32, Val)> },
     BulkPutStr { kvs: Vec<(u32, Val)> },
     PutFromIter { kvs: Vec<(u32, Val)> },
+    /// `h1.put_from_iter(h2.iter().map(|(k, v)| (k, t(v))))` with h2 another handle of the same
+    /// map: every stored value rewritten in place through the batch call, fed by a live traversal
+    /// (t even: identity, t odd: inverted bytes; the lengths never change, so no record moves while
+    /// the traversal is alive -- growing or shrinking values during a traversal is outside what the
+    /// unchanged code supports and outside C04's domain)
+    PutFromOwnIter { t: u8 },
     /// flavour index into ITER_FLAVOURS; take = None consumes everything (+3 extra next())
     Iter { f: u8, take: Option<u16> },
     /// full traversal with other read-only calls between the steps: every `every`-th step a
@@ -265,6 +271,9 @@ pub enum Op {
     DropAll,
     /// re-acquire a handle through the db object (db_map_xxx(name))
     Reacquire,
+    /// re-acquire through db_map_xxx_with_params(name, ..) while the map is open: the parameters
+    /// are ignored, the handle aliases the open map (v selects the parameter set)
+    ReacquireP { v: u8 },
     /// clone the db handle and re-acquire through the clone
     CloneDb,
     /// switch the current map (C11)
@@ -287,6 +296,7 @@ impl Op {
                 | Op::BulkPut { .. }
                 | Op::BulkPutStr { .. }
                 | Op::PutFromIter { .. }
+                | Op::PutFromOwnIter { .. }
         )
     }
     pub fn is_sync(&self) -> bool {
